@@ -40,18 +40,18 @@ WB_ASSUMED = [('src/parallel.rs', 'impl TmpNodesReader', 'to_insert'), ('src/par
               ('src/parallel.rs', "impl<'a, DE: BytesEncode<'a>> TmpNodes<DE>", 'into_bytes_reader')]
 FROZEN_ASSUMED = [('src/parallel.rs', "impl<'t, D: Distance> ImmutableLeafs<'t, D>", 'get'), ('src/parallel.rs', "impl<'t, D: Distance> ImmutableTrees<'t, D>", 'get')]
 
-BUILD_CHAIN = {'insert_driver': ['Writer::insert_items_in_current_trees'], 'iict_lib': None,
+BUILD_CHAIN = {'insert_glue': ['Writer::insert_items_in_tree'], 'insert_driver': ['Writer::insert_items_in_current_trees'], 'iict_lib': None,
                'incr_driver': ['Writer::incremental_index_large_descendants'], 'incr_lib': None,
                'build': ['Writer::build', 'meta_roots_'], 'build_lib': None}
 TMP = "impl<'a, DE: BytesEncode<'a>> TmpNodes<DE>"
-BUILD_ASSUMED = [('src/writer.rs', 'impl<D: Distance> Writer<D>', 'insert_items_in_tree'), ('src/writer.rs', 'impl<D: Distance> Writer<D>', 'pre_process_items'),
+BUILD_ASSUMED = [('src/writer.rs', 'impl<D: Distance> Writer<D>', 'pre_process_items'),
                  ('src/writer.rs', 'impl<D: Distance> Writer<D>', 'used_tree_node'),
                  ('src/parallel.rs', "impl<'t, D: Distance> ImmutableTrees<'t, D>", 'new'), ('src/parallel.rs', "impl<'t, D: Distance> ImmutableTrees<'t, D>", 'sub_tree_from_id'),
                  ('src/parallel.rs', "impl<'t, D: Distance> ImmutableTrees<'t, D>", 'empty'),
                  ('src/parallel.rs', TMP, 'new'), ('src/parallel.rs', TMP, 'new_in'), ('src/parallel.rs', TMP, 'remap'), ('src/parallel.rs', TMP, 'put'), ('src/parallel.rs', TMP, 'remove')]
 BUILD_TRUSTED = [
     'A5 (build-level, not proved): while the id generator of a build is alive, every tree id of the index in the database was present when the generator was created or was issued by it; hence an id it returns is not a tree key of the current view (ConcurrentNodeIds::next_v_) nor of the view a staging area was created under (TmpNodes::taken, rules R12/R12b/R14); axiom_generator_covers ties this to the set passed to ConcurrentNodeIds::new',
-    'A6: insert_items_in_tree (rayon map over the roots) returns, per root, a staging area satisfying the PROVED contract of insert_items_in_file for a fresh staging area, and the ids handed to different roots are different (C13); pre_process_items only rewrites item leaves of the index in place (no key added or removed, encoded length kept); used_tree_node (A1) reports every tree id of the index; ImmutableTrees::new / sub_tree_from_id freeze every tree node / exactly the subtree (assumed contracts in units/lib/frozen_build.rs, drift-guarded)',
+    'A6: rule R11 renders the rayon map of insert_items_in_tree as the sequential loop over the same closure body (proved: one result per root, each satisfying the PROVED contract of insert_items_in_file for a fresh staging area; errors propagate); what the interleaving adds is assumed as axiom_distinct_staging: ids handed to different staging areas during one call are different (the sequential restatement of C13). pre_process_items only rewrites item leaves of the index in place (no key added or removed, encoded length kept); used_tree_node (A1) reports every tree id of the index; ImmutableTrees::new / sub_tree_from_id freeze every tree node / exactly the subtree (assumed contracts in units/lib/frozen_build.rs, drift-guarded)',
     'ghost parameter: incremental_index_large_descendants receives the roots of the forest as a ghost argument (//@ghostparam, //@ghostarg Ghost(roots@) at its call in build); erased at run time',
     'precondition of build: index_inv (tree keys hold tree nodes, leaves have one length, and when metadata exists: the forest it records is well formed over metadata.items with buckets within the capacity, and an id without an updated mark is stored iff the trees hold it); build re-establishes it (built ==> index_inv); that add_item / del_item / clear preserve it is the mark discipline of C06 (sync clause not re-proved per operation)',
 ]
@@ -117,7 +117,7 @@ PROPS = {
                     'A1: used_tree_node swallows an error raised inside its try_fold (unwrap_or_default); harmless under the monotone callbacks the property quantifies over (DESIGN.md C10); that function is not under contract',
                     'Writer::build: r is Ok ==> built(..) (a complete, well-formed forest with its metadata), r is Err ==> the error is a heed/io error, BuildCancelled or DatabaseFull: Ok is never returned over a half-built forest, for every fault sequence at every poll point'] + BUILD_TRUSTED,
         'not_decided': ['abort restores the previous contents and a retry succeeds (LMDB, trusted)', 'temporary files and file descriptors are released (OS resources)',
-                        'insert_items_in_tree (rayon glue) is assumed to propagate the errors of insert_items_in_file (A6)'],
+                        ],
     },
     'C20': {
         'verus': {'tree_delete': ['Writer::delete_items_in_file', 'lemma_del_fit', 'lemma_del_one_side_empty', 'lemma_del_keep', 'lemma_del_common'],
